@@ -511,10 +511,9 @@ theorem skipPreamble_fillers (fs : List Filler) (hfs : ∀ f ∈ fs, f.wf = true
 
 theorem LineOK_threadLabel (lb : ThreadLabel) : LineOK lb.print := by cases lb <;> decide
 
-theorem splitLines_printThread (d : ThreadDoc) (h : d.wf = true) : splitLines (printThread d) = d.lines := by
+theorem ThreadDoc.lines_ok (d : ThreadDoc) (h : d.wf = true) : ∀ l ∈ d.lines, LineOK l := by
   simp only [ThreadDoc.wf, Bool.and_eq_true, List.all_eq_true] at h
   obtain ⟨⟨⟨hpre, hhead⟩, hrecs⟩, hend⟩ := h
-  apply splitLines_unlines
   intro l hl
   simp only [ThreadDoc.lines, List.mem_append, List.mem_flatMap] at hl
   rcases hl with ((hl | hl) | ⟨r, hr, hl⟩) | hl
@@ -579,6 +578,9 @@ theorem splitLines_printThread (d : ThreadDoc) (h : d.wf = true) : splitLines (p
         simp only [noStackLine]; lineok; exact ⟨h1, h2⟩
       · exact LineOK_tailLines LineOK_sentinelMemoryMap (fun m' hm' => by
           subst hm'; simpa [ThreadEnd.wf] using hend) l hl
+
+theorem splitLines_printThread (d : ThreadDoc) (h : d.wf = true) : splitLines (printThread d) = d.lines :=
+  splitLines_unlines _ (d.lines_ok h)
 
 theorem parseThread_printThread (d : ThreadDoc) (h : d.wf = true) : parseThread (printThread d) = .ok (expectedThread d) := by
   have hlines := splitLines_printThread d h
